@@ -15,6 +15,9 @@ TRANSFORMS = ("suite_transforms", {"n": {"quick": 500, "thorough": 10000}})
 METRICS = ("suite_metrics", {"n": {"quick": 600, "thorough": 12000}})
 CHECKPOINT = ("suite_checkpoint", {"n": {"quick": 4, "thorough": 50}})
 
+SEARCH = ("suite_search", {"n": {"quick": 160, "thorough": 3000}, "crash_n": {"quick": 6, "thorough": 100}})
+SEARCH_CRASH = ("suite_search", {"n": {"quick": 20, "thorough": 200}, "crash_n": {"quick": 8, "thorough": 150}})
+
 NOT_CLAIMED = {}
 
 CORE_NOTE = ("Trusted: Lean kernel; the hand-written generic oracle model (Ktm/Core.lean: create/update/endT over an arbitrary "
@@ -52,7 +55,7 @@ PROPS = {
                           "suite: full state comparison after reload and a twin run (uninterrupted oracle with its running trials queued by "
                           "hand) whose every later answer must equal the reloaded oracle's (random, grid, Hyperband; Bayesian: validity only).",
             "assumptions": ["'saved' = explicit save() at an operation boundary; the files left by the operations themselves are C08"]},
-    "C08": {"suites": [ORACLE_CRASH_ALL, ORACLE_CRASH],
+    "C08": {"suites": [ORACLE_CRASH_ALL, ORACLE_CRASH, SEARCH_CRASH],
             "level_text": "Theorems (Ktm/Props/C08.lean): for EVERY scenario and EVERY crash index k the disk is consistent (DiskOK) with the "
                           "state before or after the interrupted operation; hence restart succeeds, satisfies the invariant (unique ids), keeps "
                           "every durably ended trial untouched and unqueued, queues every RUNNING trial, keeps the trial count, and the resumed "
@@ -121,4 +124,15 @@ PROPS = {
                           "is Keras training + weight-file I/O, validated end to end on real searches by the `checkpoint` suite (weights recorded "
                           "per epoch by a user callback and compared bit for bit), not proved.",
             "assumptions": ["Keras fit / save_weights / load_weights"]},
+    "C19": {"suites": [SEARCH],
+            "level_text": "Theorems (Ktm/Props/C19.lean): for every script of run_trial behaviours, every retry / streak configuration and every "
+                          "algorithm, the loop's trace is (start, end) pairs for the same id followed by STOPPED / a fatal error / an interrupt / the "
+                          "aborting end (each started trial ended exactly once), the reported statuses are the images of the attempts in order "
+                          "(returned => COMPLETED, exception => INVALID, FailedTrialError => FAILED, fatal => propagates), IDLE => ask again; restart "
+                          "from any consistent disk re-issues the interrupted trial first with the same id and values and the same trial count.",
+            "level_note": CORE_NOTE + " The loop model is tied to BaseTuner.search by replaying every scripted search in the model (same populate "
+                          "answers) and comparing the complete event trace and final statuses. The restart of a whole tuner (tuner0.json decides whether "
+                          "anything is reloaded) is checked on the implementation by resuming interrupted searches and by crashing before every file "
+                          "write of whole searches; the window of known finding F18 is reported under C08.",
+            "assumptions": ["KeyboardInterrupt-like interrupts are modelled as BaseException raised by run_trial"]},
 }
